@@ -848,6 +848,90 @@ class Harness(object):
                 self.model.tainted = True
         self.prune()
 
+    def op_rekey(self, op):
+        """move an object off one of its unique / composite key values, then create another object that takes the old
+        value: the session's key index must have released it"""
+        _, oc, c = (list(op) + [0, 0])[:3]
+        st = self.model.cur
+        cands = []
+        for h in self.model.live(st):
+            e = self.model.ents[st.objs[h]['ent']]
+            for sc in e['scalars']:
+                if (st.objs[h]['ent'], sc['name']) in self.model.keyed and st.objs[h]['vals'].get(sc['name']) is not None:
+                    cands.append((h, sc))
+        if not cands:
+            return
+        h, sc = cands[oc % len(cands)]
+        ent = st.objs[h]['ent']
+        e = self.model.ents[ent]
+        if any(end['req'] for end, rev in self.model.rel_ends_of(ent) if not end['many']):
+            return
+        old_vals = dict(st.objs[h]['vals'])
+        # new value: None when allowed (key becomes incomplete), else a fresh value
+        used = set()
+        for hh in self.model.live(st, ent):
+            used.update(v for v in st.objs[hh]['vals'].values() if v is not None)
+        fresh = [v for v in ((7, 8, 9, 11) if sc['type'] == 'int' else ('q', 'r', 't', 'w')) if v not in used]
+        if not sc['req'] and c % 2 == 0:
+            newv = None
+        elif fresh:
+            newv = fresh[0]
+        else:
+            return
+
+        def pony_set():
+            setattr(self.obj(h), sc['name'], newv)
+            return True
+        self.modify('rekey: h%d.%s = %r' % (h, sc['name'], newv), lambda: self.model.op_set_scalar(h, sc['name'], newv), pony_set,
+                    'assign', force_call=lambda: self._ignoring_conflicts(lambda: self.model.op_set_scalar(h, sc['name'], newv)),
+                    needs=[h])
+        if not self.in_session or self.doomed or h not in self.model.cur.objs or self.model.cur.objs[h]['vals'].get(sc['name']) != newv:
+            return
+        # create the taker of the old key values
+        st = self.model.cur
+        used = set()
+        for hh in self.model.live(st, ent):
+            used.update(v for v in st.objs[hh]['vals'].values() if v is not None)
+        fresh_i = [i for i in (12, 13, 14, 15, 16) if i not in used]
+        fresh_s = [x for x in ('y', 'z', 'u', 'v', 'k') if x not in used]
+        scalars = {}
+        keyed_with = set([sc['name']])
+        for ck in e['ckeys']:
+            if sc['name'] in ck:
+                keyed_with.update(ck)
+        for s2 in e['scalars']:
+            if s2['name'] in keyed_with:
+                scalars[s2['name']] = old_vals.get(s2['name'])
+            elif s2['req'] or (ent, s2['name']) in self.model.keyed:
+                pool = fresh_i if s2['type'] == 'int' else fresh_s
+                if not pool:
+                    return
+                scalars[s2['name']] = pool.pop()
+            else:
+                scalars[s2['name']] = None
+        if any(scalars.get(n) is None for n in keyed_with if [x for x in e['scalars'] if x['name'] == n and x['req']]):
+            return
+        if e['pk'] != 'auto':
+            return
+        pkw = {n: v for n, v in scalars.items() if v is not None}
+        holder = {}
+
+        def model_call():
+            stt, res, hnew = self.model.op_create(ent, None, scalars, {}, {})
+            holder['h'] = hnew
+            return stt, res
+
+        def pony_call():
+            return self.classes[ent](**pkw)
+        o = self.modify('rekey: create %s(%s) taking the released key' % (ent, ', '.join('%s=%r' % kv for kv in sorted(pkw.items()))),
+                        model_call, pony_call, 'create', force_call=lambda: self._ignoring_conflicts(model_call))
+        if o is not None and holder.get('h') in self.model.cur.objs:
+            self.pobj[holder['h']] = o
+            self.created.add(holder['h'])
+            if self.model.key_seen_elsewhere(holder['h'], self.model.cur):
+                self.model.tainted = True
+        self.prune()
+
     def op_delete(self, op):
         _, oc = (list(op) + [0])[:2]
         h = self.pick_live(oc)
@@ -1430,6 +1514,8 @@ class Harness(object):
                 self.op_delete(op)
             elif name == 'retake':
                 self.op_retake(op)
+            elif name == 'rekey':
+                self.op_rekey(op)
             elif name == 'flush':
                 self.do_flush()
             elif name == 'commit':
@@ -1455,7 +1541,7 @@ class Harness(object):
                 raise ValueError('unknown op %r' % (op,))
             if probing and self.in_session:
                 self.guard_read(lambda: self.probe_reads(op, 'after'))
-            if name in ('create', 'set', 'setm', 'cadd', 'crem', 'cclear', 'del', 'retake') and self.in_session:
+            if name in ('create', 'set', 'setm', 'cadd', 'crem', 'cclear', 'del', 'retake', 'rekey') and self.in_session:
                 if 'C12' in self.props:
                     self.guard_read(lambda: self.check_relationship_ends('after %r' % (op,)))
                     self.guard_read(lambda: self.check_against_model('after %r' % (op,)))
@@ -1520,7 +1606,7 @@ def programs(spec_strategy=None, max_sessions=3, max_ops=10, weights=None):
     from hypothesis import strategies as st
     spec_strategy = spec_strategy or modelspec.specs()
     c = st.integers(0, 40)
-    w = dict(create=6, set=5, setm=2, cadd=3, crem=2, cclear=1, **{'del': 3}, flush=2, commit=1, rollback=1, read=3, ident=1, retake=0)
+    w = dict(create=6, set=5, setm=2, cadd=3, crem=2, cclear=1, **{'del': 3}, flush=2, commit=1, rollback=1, read=3, ident=1, retake=0, rekey=0)
     w.update(weights or {})
     choices = []
     create = st.tuples(st.just('create'), c, c, st.lists(c, max_size=3), st.lists(c, max_size=4), st.lists(st.integers(0, 31), max_size=3)).map(list)
@@ -1538,6 +1624,7 @@ def programs(spec_strategy=None, max_sessions=3, max_ops=10, weights=None):
         'read': st.tuples(st.just('read'), c, c, c, c).map(list),
         'ident': st.tuples(st.just('ident'), st.integers(0, 3)).map(list),
         'retake': st.tuples(st.just('retake'), c).map(list),
+        'rekey': st.tuples(st.just('rekey'), c, c).map(list),
     }
     for name, weight in w.items():
         choices.extend([table[name]] * weight)
